@@ -218,6 +218,37 @@ def direct_read_gaps(ctx, T, b, ty):
     return out
 
 
+def fields_read(ctx, b, ty):
+    """names of the fields of DSL type `ty` that the override `b` (or a closure of it) reads"""
+    out = set()
+    bodies = [b] + [cb for cb in ctx.prog.bodies.values() if cb.f["dk"] == "Closure" and cb.f.get("parent") == b.id]
+    for bd in bodies:
+        for _, _, pl in bd.place_uses():
+            rt = bd.root(pl) or pl
+            for pr in rt[1]:
+                if isinstance(pr, list) and pr[0] == "f" and pr[3] == ty:
+                    out.add(pr[2])
+    return out
+
+
+def dsl_types_in(ctx, tystr):
+    return {m.group(0) for m in re.finditer(r"ironplc_dsl::[A-Za-z_:]*[A-Za-z_]", tystr) if m.group(0) in ctx.facts.adts}
+
+
+def type_closure(T, t0):
+    if "c" not in _CONT:
+        _CONT["c"] = T.containment()
+    cont = _CONT["c"]
+    seen, st = set(), [t0]
+    while st:
+        x = st.pop()
+        if x in seen:
+            continue
+        seen.add(x)
+        st.extend(cont.get(x, ()))
+    return seen
+
+
 def rule_reach(ctx, rep):
     r = rep.rule("R-C02-reach", "a rule is applied wherever the construct it checks can occur: every overridden visit method is reachable from "
                                 "Library under the visitor's effective traversal; a non-recursing override cuts off no other target of the same "
@@ -251,13 +282,36 @@ def rule_reach(ctx, rep):
                 continue
             # direct reads: a non-recursing override that inspects a descendant type E by hand must look at every field of T below
             # which an E can occur (sibling paths to the same construct agree)
+            own_reads = fields_read(ctx, b, ty)
             for E, f, via in direct_read_gaps(ctx, T, b, ty):
+                if E.endswith("::EnumeratedValue"):
+                    # definitions and uses of enumeration values are different roles (table ENUM_FIELDS of c02_enum): a collector of the
+                    # *defined* values has no business with a field that holds a *use*
+                    from rules.c02_enum import ENUM_FIELDS
+                    tshort = ty.split("::")[-1]
+                    rc = {ENUM_FIELDS[(tshort, fr)][0] for fr in own_reads if (tshort, fr) in ENUM_FIELDS}
+                    gc = ENUM_FIELDS.get((tshort, f))
+                    if rc == {"def"} and gc and gc[0] != "def":
+                        r.justified("%s|reads %s directly, not field %s" % (inst, E.split("::")[-1], f), "collects the values an enumeration defines (%s); %s.%s holds a use (%s)"
+                                    % (", ".join(sorted(own_reads)), tshort, f, gc[1]), where)
+                        continue
                 r.finding("%s|reads %s directly, ignores field %s" % (inst, E.split("::")[-1], f), where,
                           "the override does not recurse and inspects %s nodes by hand, but %s nodes also occur below %s.%s (via %s), which it never looks at: "
                           "the rule is not applied there" % (E.split("::")[-1], E.split("::")[-1], ty.split("::")[-1], f, via.split("::")[-1]))
             below = T.default_reach_from_type(ty)
             eff = {x for k, x in T.reach(es, ms) if k == "v"}
             miss = (below & set(ms)) - eff - {m}
+            # a target below that the override handles itself: every field of this node under which that target's type occurs is read by
+            # the override (it inspects those children by hand instead of dispatching to the visitor's method for them)
+            by_hand = set()
+            for m2 in sorted(miss):
+                X = T.method_type.get(m2)
+                via_fields = [fl["name"] for v in ctx.facts.adts[ty]["variants"] for fl in v["fields"]
+                              if any(X in type_closure(T, k) for k in dsl_types_in(ctx, fl["ty"]))] if X else []
+                if via_fields and all(f in own_reads for f in via_fields):
+                    by_hand.add(m2)
+                    r.ok("%s|handles %s by hand" % (inst, m2), where, "does not recurse; reads %s itself (the only place(s) of a %s below %s)" % (", ".join(via_fields), X.split("::")[-1], ty.split("::")[-1]))
+            miss -= by_hand
             if miss:
                 r.finding(inst + "|cut-off:" + ",".join(sorted(miss)), where,
                           "override does not continue the recursion, so occurrences of %s below %s are never visited" % (sorted(miss), ty.split("::")[-1]))
@@ -308,6 +362,8 @@ SCOPED_GLOBAL = {   # visitor state that is deliberately library-wide (filled by
     ("xform_toposort_declarations::DeclarationsGraph", "index_to_id"): "library-wide declaration graph",
     ("symbol_graph::SymbolGraph", "nodes"): "library-wide declaration graph",
     ("symbol_table::Scope", "table"): "one Scope per enter(): scoping is done by SymbolTable::enter/exit",
+    ("rule_use_declared_enumerated_value::FindEnumeratedValues", "values"): "the values of all enumerations: types are library-wide; collected by a complete first pass before the rule's visitor starts",
+    ("xform_resolve_late_bound_expr_kind::EnumeratedValueFinder", "values"): "the values of all enumerations: types are library-wide; collected by a complete walk before the fold starts",
 }
 MUTATORS = {"insert", "push", "extend", "append", "add", "try_add", "push_front", "push_back"}
 RESETTERS = {"clear", "exit", "pop_front", "pop_back", "pop", "remove", "drain", "take", "retain"}
@@ -421,6 +477,26 @@ def ctx_reset_on_all_paths(b, aid, field, ty, neutral):
             d = b.single_def(p[0]) if p and not p[1] else None
             if d and d[0] == "stmt" and d[3][0] == "agg" and d[3][1].get("adt") == want_adt:
                 return d[3][1]["variant"]
+            # save/restore idiom: `let outer = self.ctx.clone(); self.ctx = …; …; self.ctx = outer;` -- the restored value is the
+            # one the method was entered with, provided the copy was taken before any assignment (it dominates them)
+            for _ in range(4):      # `_a = move _b` hops between the copy and the assignment
+                if d and d[0] == "stmt" and d[3][0] == "use" and op_place(d[3][1]) is not None and not op_place(d[3][1])[1]:
+                    d = b.single_def(op_place(d[3][1])[0])
+                else:
+                    break
+            if d and d[0] == "call":
+                c = d[2]
+                if c is not None and (c.callee or c.u or "").endswith("clone") and c.args:
+                    ap = op_place(c.args[0])
+                    fs2 = [x for x in (b.root(ap)[1] if ap is not None else []) if isinstance(x, list) and x[0] == "f"]
+                    if fs2 and fs2[-1][3] == aid and fs2[-1][2] == field:
+                        dom = b.dominators()
+                        setters = [i for i, j, s2 in b.all_stmts() if s2 is not s and s2[0] == "=" and
+                                   [x for x in s2[1][1] if isinstance(x, list) and x[0] == "f"][-1:] and
+                                   [x for x in s2[1][1] if isinstance(x, list) and x[0] == "f"][-1][3] == aid and
+                                   [x for x in s2[1][1] if isinstance(x, list) and x[0] == "f"][-1][2] == field]
+                        if all(c.bb in dom.get(i, set()) and c.bb != i for i in setters):
+                            return "entry"
         return "(set)"   # unknown value: assume non-neutral
 
     def step(st, bb):
@@ -763,3 +839,5 @@ def run(ctx, rep):
     rule_pipeline(ctx, rep, rid="R-C02-pipeline")
     rule_uses(ctx, rep)
     rule_globalkind(ctx, rep)
+    from rules import c02_enum
+    c02_enum.run(ctx, rep)
